@@ -368,7 +368,7 @@ class Lib:
         raise EngineLimit("set operator")
 
     def seq_concat(self, ctx, a, b):
-        other = a if isinstance(a, SymSeq) else b
+        other = a if isinstance(a, SymSeq) else b  # the symbolic operand (gives the element kind of a literal operand)
 
         def as_seq(v):
             if isinstance(v, SymSeq):
@@ -386,7 +386,15 @@ class Lib:
         a, b = as_seq(a), as_seq(b)
         i = z3.FreshConst(z3.IntSort(), "i")
         arr = z3.Lambda([i], z3.If(i < a.length, z3.Select(a.arr, i), z3.Select(b.arr, i - a.length)))
-        return SymSeq(arr, a.length + b.length, a.kind, fresh=True)
+        kind = a.kind
+        if isinstance(a.kind, V.ObjOf) and isinstance(b.kind, V.ObjOf) and a.kind.clsname != b.kind.clsname:
+            # lists of objects of different classes: the elements of the result are of the nearest common base class
+            ca, cb = self.e.repo.cls(a.kind.clsname), self.e.repo.cls(b.kind.clsname)
+            common = [c for c in ca.mro() if c in cb.mro()]
+            if not common:
+                raise EngineLimit("concatenation of lists of unrelated classes")
+            kind = V.ObjOf(common[0].qualname)
+        return SymSeq(arr, a.length + b.length, kind, fresh=True)
 
     # ------------------------------------------------------------------ comparisons
     def order(self, ctx, op, a, b):
@@ -535,6 +543,9 @@ class Lib:
             return SymSeq(arr, ln, o.kind, fresh=True)
         if isinstance(o, str):
             return o[lo:hi]
+        if isinstance(o, z3.ExprRef) and z3.is_string(o) and hi is None and isinstance(lo, int) and lo >= 0:
+            # s[k:] for a constant k >= 0: the suffix after the first k characters (empty if shorter)
+            return z3.SubString(o, z3.IntVal(lo), z3.Length(o))
         raise EngineLimit("slice of %r" % (o,))
 
     def setitem(self, ctx, o, k, v):
@@ -630,7 +641,7 @@ class Lib:
         raise EngineLimit("issubclass")
 
     def bi_callable(self, ctx, v):
-        return isinstance(v, (V.Closure, V.BoundMethod, V.Builtin, V.ClassVal, V.Partial))
+        return isinstance(v, (V.Closure, V.BoundMethod, V.Builtin, V.ClassVal, V.Partial, V.Recorder, V.SymClosure))
 
     def bi_int(self, ctx, x=0, base=None):
         if isinstance(x, bool):
@@ -657,6 +668,8 @@ class Lib:
         return self.e.truth(ctx, x)
 
     def bi_str(self, ctx, x=""):
+        if isinstance(x, OptV) and not isinstance(x.is_none, bool) and not self.e.feasible(ctx, x.is_none):
+            x = x.val  # the path condition excludes None
         if isinstance(x, str):
             return x
         if isinstance(x, z3.ExprRef) and z3.is_string(x):
@@ -719,6 +732,13 @@ class Lib:
     def bi_getattr(self, ctx, o, name, *default):
         if not isinstance(name, str):
             raise EngineLimit("getattr with a non-constant name")
+        if default and isinstance(o, Obj):
+            # getattr(obj, name, default): the class index decides whether the attribute exists
+            k, _ = self.e.field_kind(o.cls, name)
+            exists = (o.cls.lookup(name) is not None or o.cls.lookup_attr(name) is not None or k is not None
+                      or (o.fields is not None and name in o.fields))
+            if not exists:
+                return default[0]
         return self.e.getattr(ctx, o, name)
 
     def bi_print(self, ctx, *a, **k):
@@ -1221,6 +1241,18 @@ class Lib:
     def m_list_append(self, ctx, o, x):
         self._mutating(ctx, o)
         o.items.append(x)
+
+    def m_seq_append(self, ctx, o, x):
+        """list.append on a symbolic list that the receiver object owns (a field of a materialised mutable object)."""
+        from .symexec import short
+        from . import mutstate
+
+        if not (getattr(o, "owned", False) or o.fresh):
+            ctx.oblige("%s/frame#aliased-mutation" % short(ctx.func), False, kind="frame")
+        if isinstance(x, Obj) and x.fields is not None:
+            mutstate.publish(self.e, ctx, x)
+        o.arr = z3.Store(o.arr, o.length, o.kind.unwrap(x))
+        o.length = o.length + 1
 
     def m_list_extend(self, ctx, o, xs):
         self._mutating(ctx, o)
